@@ -29,15 +29,63 @@ def known_sig(desc, P, case, cfg, o):
     vals = str(case and case.get("edb")) + str(case and case.get("model"))
     if cfg.get("repr") == "brie" and cfg.get("compile") and ("-2147483648" in vals or "-1" in vals):
         return "compiled-brie-negative-keys"
-    if not cfg.get("compile") and any(r.get("eqrel") for r in P["rels"]) and "-2147483648" in vals:
-        return "interpreter-eqrel-min-sentinel"
+    # interpreter: a lookup on an eqrel relation with a column bound to MIN answers as if the column were unbound
+    # (EquivalenceRelation::lower_bound takes MIN_RAM_SIGNED for "unbound"): only unexpected extra tuples, only in the
+    # relations of the eqrel-lookup family whose bound value can be MIN
+    if not cfg.get("compile") and P.get("min_lookup_rels") and "-2147483648" in vals and o is not None and o.outputs:
+        exp = case["model"]
+        from ..common import canon
+        bad = [r for r in exp if o.outputs.get(r) is not None and sorted(canon(t) for t in exp[r]) != o.outputs[r]]
+        if bad and all(r in P["min_lookup_rels"] for r in bad):
+            return "interpreter-eqrel-min-sentinel"
     return None
+
+def eqrel_lookup_program(rng, idx):
+    """eqrel read by scan, filter, join and point lookup with either column bound to a constant / an outer variable / unbound,
+    over the extreme domain (the interpreter encodes 'unbound' as MIN/MAX in its search bounds)"""
+    V = lambda n: {"k": "var", "n": n}; N = lambda v: {"k": "num", "v": v}; ANY = {"k": "any"}
+    def atom(rel, *a): return {"k": "atom", "rel": rel, "args": list(a)}
+    def rel(name, ar, inp=False, eq=False):
+        r = {"name": name, "arity": ar, "types": ["i"] * ar, "input": inp, "output": not inp, "eqrel": eq}
+        if eq:
+            r["quals"] = ["eqrel"]
+        return r
+    consts = [-2147483648, -1, 2147483647]
+    rels = [rel("pairs", 2, True), rel("keys", 1, True), rel("eq", 2, eq=True)]
+    cl = [{"head": {"rel": "eq", "args": [V("x"), V("y")]}, "body": [atom("pairs", V("x"), V("y"))]}]
+    strata = [["pairs"], ["keys"], ["eq"]]
+    minrels = []
+    k = 0
+    def add(name_args, body, uses_min):
+        nonlocal k
+        name = "q%d" % k; k += 1
+        rels.append(rel(name, len(name_args)))
+        cl.append({"head": {"rel": name, "args": name_args}, "body": body}); strata.append([name])
+        if uses_min:
+            minrels.append(name)
+    for c in rng.sample(consts, 2):
+        add([V("y")], [atom("eq", N(c), V("y"))], c == consts[0])
+        add([V("x")], [atom("eq", V("x"), N(c))], c == consts[0])
+        add([V("x"), V("y")], [atom("eq", V("x"), V("y")), {"k": "cmp", "op": "EQ", "l": V("x"), "r": N(c)}], c == consts[0])
+    add([V("x"), V("y")], [atom("keys", V("x")), atom("eq", V("x"), V("y"))], True)
+    add([V("x"), V("y")], [atom("keys", V("y")), atom("eq", V("x"), V("y"))], True)
+    add([V("x")], [atom("keys", V("x")), atom("eq", V("x"), V("x"))], True)
+    add([V("x")], [atom("keys", V("x")), {"k": "neg", "rel": "eq", "args": [V("x"), ANY]}], True)
+    add([V("x"), V("y")], [atom("keys", V("x")), atom("keys", V("y")), {"k": "neg", "rel": "eq", "args": [V("x"), V("y")]}], True)
+    add([V("n")], [{"k": "agg", "op": "count", "res": V("n"), "tgt": {"k": "nil"}, "body": [atom("eq", V("a"), V("b"))], "outer": []}], False)
+    P = {"id": "eqlookup_%d" % idx, "types": [], "rels": rels, "clauses": cl, "strata": strata, "dom": copy.deepcopy(EXT),
+         "features": ["eqrel-lookup"], "min_lookup_rels": minrels}
+    g = gen.Gen(rng, max_edbs=64, edb_sample=16, dom=copy.deepcopy(EXT)); g.types = []
+    g.edb_space(P)
+    return P
 
 def programs(s, n):
     a = gen.programs(s, n // 2, eqrel=True, dom=EXT, const_pool=[-2147483648, -1, 0, 2147483647], features=[
         "neg", "agg", "cmp", "recursion", "mutual", "disj", "facts", "nullary", "str"])
     b = gen.programs(s + 1, n - n // 2, eqrel=True)
-    return a + b
+    import random
+    rng = random.Random(s * 13 + 8)
+    return a + b + [eqrel_lookup_program(rng, i) for i in range(2)]
 
 def run(tier, replay=None):
     return evalprop.run_eval("C08", tier, programs, configs,
